@@ -6,7 +6,7 @@ From Coq Require Import List NArith ZArith Bool Arith String.
 Import ListNotations.
 From V Require Import Base.ConnView Gen.ConnSites Model.C39
   Proofs.C39Base Proofs.C39Measure Proofs.C39Calls Proofs.C39Flight Proofs.C39Holders Proofs.C39Done Proofs.C39
-  Proofs.C39Progress.
+  Proofs.C39Progress Proofs.C39Acceptor.
 
 (* ------------------------------------------------------------------ K-gen obligations *)
 (* every updateInFlight critical section of conn.go (function, ordinal, body hash) is a modelled transition *)
@@ -116,6 +116,19 @@ Proof. exact no_internal_deadlock. Qed.
 Theorem C39_quiescent_is_done : forall p s, reachable p s -> measure s = 0 -> s_done s = true.
 Proof. exact measure_zero_done. Qed.
 
+(* ... and then every call has its response, carrying its own ID: every Await can return, with the own answer *)
+Theorem C39_all_calls_answered_at_quiescence : forall p s c cr, reachable p s -> measure s = 0 ->
+  nth_error (s_calls s) c = Some cr -> exists r, c_resp cr = Some r /\ c_id cr = Some (rs_id r).
+Proof. exact all_calls_answered_at_quiescence. Qed.
+
+(* ------------------------------------------------------------------ the history acceptor *)
+(* the closure computed by ocaml/c39_driver.ml misses no step: a label is either logged by the harness or, when
+   enabled, listed by tau_labels; and the candidate writers of an observed response are all listed *)
+Theorem C39_acceptor_closure_complete : forall s l, is_logged l = false -> body_step s l <> Disabled -> In l (tau_labels s).
+Proof. exact tau_complete. Qed.
+Theorem C39_acceptor_writers_complete : forall s t r w, body_step s (LWriteResp t r w) <> Disabled -> In t (resp_writers s).
+Proof. exact writers_complete. Qed.
+
 (* ------------------------------------------------------------------ non-vacuity *)
 Definition resp17 : response := {| rs_id := IInt 1; rs_body := BResult 7 |}.
 (* a call answered by the peer, awaited, then Close *)
@@ -177,3 +190,6 @@ Print Assumptions C39_close_progress.
 Print Assumptions C39_observation_keeps_measure.
 Print Assumptions C39_no_internal_deadlock.
 Print Assumptions C39_quiescent_is_done.
+Print Assumptions C39_all_calls_answered_at_quiescence.
+Print Assumptions C39_acceptor_closure_complete.
+Print Assumptions C39_acceptor_writers_complete.
